@@ -132,6 +132,14 @@ def c19 (op : String) (j : Json) : Option (R Json) :=
       | .ok (mesh, arr) =>
         pure (Json.mkObj [("ok", Json.mkObj [("mesh", meshToJson mesh), ("ns", natsJ shape),
           ("coef", listJ (fun i => listJ (polyJ shape) (arr.get i)) (indicesC mesh.n))])])
+  | "bl_sheet" => some do
+      -- the decision procedures for the hypotheses of the integrality theorems (`bl_charge_half_integer`,
+      -- `bl_charge_integer`) on the orientation field of the given field
+      let f ← fldOfJson (← fld j "field")
+      let r ← listOf ratOfJson (← fld j "rim")
+      let o := orientation ratSqrt f
+      pure (Json.mkObj [("ok", Json.mkObj [("closed", .bool (closedSheetB o (V3.ofList r))),
+        ("smooth", .bool (smoothSheetB o))])])
   | "sqrt" => some do
       let q ← ratOfJson (← fld j "q")
       pure (Json.mkObj [("ok", ratToJson (ratSqrt q))])
